@@ -41,6 +41,7 @@ fixed(['C08', 'C07'], h('blanks inside the braces'), r"D14: \begin{ a }x\end{a} 
 fixed(['C01', 'C02'], h('reaches items, groups'), r"D6: \item \begin{verbatim} $ \end{verbatim} failed (skip list not propagated into items, groups, arguments, math)", 'regress/C01/d6_*.json')
 fixed(['C08', 'C16'], h('named [tex]'), r"D16: \begin{[tex]}x\end{[tex]} serialised as 'x'", 'regress/C08/d16_*.json')
 fixed(['C18', 'C15'], h('proxy list in step by position'), r"D17: with the same group object held twice next to a textual twin, insert/remove desynchronised the proxy .all and a following pop(i) returned the wrong group", 'regress/C18/d17_*.json')
+fixed(['C06'], h('compared without parsing its group'), r"D18: tolerant parsing of '\begin{a}\end{' repeated n times took 2^n steps (n=18: a minute; within the stated depth bound of 40 it never finished); reported by a round-3 sub-agent, present in the pinned tree as well", 'regress/C06/d18_*.json')
 EXTRA = os.path.join(HERE, 'tools', 'known_extra.json')
 if os.path.exists(EXTRA):
     for e in json.load(open(EXTRA)):
